@@ -165,7 +165,10 @@ fn settle(w: &mut World) {
     for _ in 0..20_000 {
         w.flush_now();
         let horizon = w.now + 1_000_000_000;
+        // (an application reading with a budget per poll is not done when the wire is quiet: the
+        // limits it will advertise for what it already holds must be out before the next probe)
         let busy = !w.net.q.is_empty()
+            || w.wake_pending()
             || w.eps.iter().any(|e| e.conns.values().any(|c| !c.c.is_drained() && c.c.poll_timeout().map_or(false, |t| w.rel(t) <= horizon)));
         if !busy {
             break;
